@@ -17,6 +17,8 @@ type c09Thread struct {
 	Kind    string // logout | app | callback
 	Res     world.Result
 	RetStep int
+	// StartStep: scheduler step at which the thread's request entered the handler
+	StartStep int
 }
 
 func c09Scenario(store, pre string, nChecks int, bound int) schedx.Scenario {
@@ -203,6 +205,74 @@ func c09SeqMonitor(run *ev.Run, spec world.Spec) hMonitor {
 	}
 }
 
+// c09LateStartScenario: a logout with two checks on a fresh session whose store has an idle time-out (a Redis token
+// lookup is then two commands, HMGET and EXPIREAT, and another request can run between them). Judged here is only
+// what no granularity argument can excuse: a check that ENTERED the handler after the logout had been answered is
+// answered OK (and the follow-up after quiescence). A check that was between the commands of one store read when
+// the logout was answered is not judged. Lock operations are scheduling points here (the memory store's methods are
+// critical sections; one that is split in two lets another request in between).
+func c09LateStartScenario(store string, bound int) schedx.Scenario {
+	return schedx.Scenario{
+		Name: fmt.Sprintf("logout||2xfresh idle store=%s (late start)", store), Bound: bound, SyncPoints: true,
+		Setup: func() *schedx.Instance {
+			w := world.New(world.Spec{Store: store, Forward: true, Logout: true, Idle: 3600})
+			sid := c15Prepare(w, "fresh")
+			const n = 3
+			w.Envs = make([]*world.Env, n)
+			for i := range w.Envs {
+				w.Envs[i] = &world.Env{}
+			}
+			ths := make([]*c09Thread, n)
+			ths[0] = &c09Thread{Kind: "logout"}
+			bodies := make([]func(), n)
+			bodies[0] = func() {
+				ths[0].StartStep = vsched.Active().Steps()
+				ths[0].Res = w.Do(world.Req{Path: world.LogoutPath, Cookie: sid}, world.Plan{})
+				ths[0].RetStep = vsched.Active().Steps()
+			}
+			for i := 1; i < n; i++ {
+				i := i
+				ths[i] = &c09Thread{Kind: "app"}
+				bodies[i] = func() {
+					ths[i].StartStep = vsched.Active().Steps()
+					ths[i].Res = w.Do(world.Req{Path: "/", Cookie: sid}, world.Plan{})
+					ths[i].RetStep = vsched.Active().Steps()
+				}
+			}
+			return &schedx.Instance{
+				Threads: bodies,
+				Close:   w.Close,
+				Finish: func(x *schedx.Exec) (string, []schedx.Violation) {
+					var viols []schedx.Violation
+					var obs strings.Builder
+					lo := ths[0]
+					logoutAnswered := !lo.Res.OK && world.IsRedirect(lo.Res.HTTPStatus) && lo.Res.Location == world.LogoutRedirect
+					fmt.Fprintf(&obs, "logout(code=%v http=%d)", lo.Res.Code, lo.Res.HTTPStatus)
+					for i := 1; i < n; i++ {
+						t := ths[i]
+						late := t.StartStep > lo.RetStep
+						fmt.Fprintf(&obs, " app(ok=%v code=%v late=%v)", t.Res.OK, t.Res.Code, late)
+						if logoutAnswered && late && t.Res.OK {
+							viols = append(viols, schedx.Violation{
+								Signature: "ok-started-after-logout-answer pre=fresh store=" + store,
+								Message:   fmt.Sprintf("a check that entered the handler at step %d, after the logout had been answered at step %d, is answered OK with the logged-out cookie", t.StartStep, lo.RetStep)})
+						}
+					}
+					w.Envs = nil
+					fu := w.Do(world.Req{Path: "/", Cookie: sid}, world.Plan{})
+					fmt.Fprintf(&obs, " followup(ok=%v code=%v)", fu.OK, fu.Code)
+					if logoutAnswered && fu.OK {
+						viols = append(viols, schedx.Violation{
+							Signature: "resurrect-late-start pre=fresh store=" + store,
+							Message:   "after the logout was answered and all checks finished, the next request with the logged-out cookie is answered OK"})
+					}
+					return obs.String(), viols
+				},
+			}
+		},
+	}
+}
+
 func c09Scenarios(tier string) []schedx.Scenario {
 	var scs []schedx.Scenario
 	stores := []string{"memory", "redis"}
@@ -222,12 +292,15 @@ func c09Scenarios(tier string) []schedx.Scenario {
 	}
 	if tier != "thorough" {
 		scs = append(scs, c09Scenario("memory", "expired", 2, 1))
+		scs = append(scs, c09LateStartScenario("redis", 2), c09LateStartScenario("memory", 2))
+	} else {
+		scs = append(scs, c09LateStartScenario("redis", 3), c09LateStartScenario("memory", 3))
 	}
 	return scs
 }
 
 func c09Run(run *ev.Run) {
-	run.Rule = "all interleavings (pre-emption bound 2 quick; unbounded for 2 threads and bound 3 for 3 threads thorough) of a logout with one or two concurrent checks on the same session (fresh, expired-refreshable, mid-login callback), at store-call and token-endpoint-call granularity, on the real handler with memory and Redis stores, followed by a request after quiescence; plus a sequential BFS (depth 4, store faults) judging the logout answer itself; class = distinct observation logs (verdicts ordered against the logout answer)"
+	run.Rule = "all interleavings (pre-emption bound 2 quick; unbounded for 2 threads and bound 3 for 3 threads thorough) of a logout with one or two concurrent checks on the same session (fresh, expired-refreshable, mid-login callback), at store-call and token-endpoint-call granularity, on the real handler with memory and Redis stores, followed by a request after quiescence; a late-start scenario (logout with two checks of a fresh session, idle time-out, lock operations and Redis commands as scheduling points) judging a check that entered the handler after the logout answer; plus a sequential BFS (depth 4, store faults) judging the logout answer itself; class = distinct observation logs (verdicts ordered against the logout answer)"
 	run.Assumptions = []string{
 		"scheduling points: every SessionStore call, every token-endpoint call, thread end; code between two such calls of one check runs atomically",
 		"a verdict is 'produced' when Process returns; one that was produced before the logout answer is not judged",
